@@ -285,6 +285,124 @@ def c_match_range(run):
     return None
 
 
+def c_da(run):
+    """da_match_max_length: range of a present prefix widened by one"""
+    e = _ev(run, "search")
+    n = _text_len(run)
+    for k, p in enumerate(e["pats"]):
+        m = e["da"][k]
+        if m[2] >= 1 and m[1] > m[0] and m[1] < n:
+            e["da"][k] = [m[0], m[1] + 1, m[2]]
+            return run
+    return None
+
+
+def c_da_empty(run):
+    e = _ev(run, "search")
+    e["da_empty"] = [0, 1, 0]
+    return run
+
+
+def c_mcount(run):
+    e = _ev(run, "search")
+    for k, p in enumerate(e["pats"]):
+        if e["mcount"][k] > 0:
+            e["mcount"][k] += 1
+            return run
+    return None
+
+
+def c_ranked_order(run):
+    """find_all_matches: two positions of the suffix-ordered list exchanged"""
+    e = _ev(run, "search")
+    for k, p in enumerate(e["pats"]):
+        r = e["ranked"][k]
+        if len(r) >= 2:
+            e["ranked"][k] = [r[1], r[0]] + r[2:]
+            return run
+    return None
+
+
+def c_longest_len(run):
+    e = _ev(run, "longest")
+    for k, r in enumerate(e["res"]):
+        if r and r[0] >= 2:
+            e["res"][k] = [r[0] - 1, r[1]]
+            return run
+    return None
+
+
+def c_longest_pos(run):
+    """dict_position moved to a place where the matched bytes do not occur"""
+    e = _ev(run, "longest")
+    t = _ev(run, "text")["text"]
+    for k, r in enumerate(e["res"]):
+        if not r:
+            continue
+        q = e["inputs"][k][e["pos"][k]:][:r[0]]
+        for i in range(len(t)):
+            if t[i:i + len(q)] != q:
+                e["res"][k] = [r[0], i]
+                return run
+    return None
+
+
+def c_longest_none(run):
+    e = _ev(run, "longest")
+    for k, r in enumerate(e["res"]):
+        if r:
+            e["res"][k] = []
+            return run
+    return None
+
+
+def c_longest_past_end(run):
+    """position >= len(input) answered with a match"""
+    e = _ev(run, "longest")
+    for k, r in enumerate(e["res"]):
+        if e["pos"][k] >= len(e["inputs"][k]):
+            e["res"][k] = [1, 0]
+            return run
+    return None
+
+
+def c_longest_short(run):
+    """a longest match shorter than min_pattern_length answered Some"""
+    e = _ev(run, "longest")
+    for k, r in enumerate(e["res"]):
+        if not r and e["pos"][k] < len(e["inputs"][k]):
+            e["res"][k] = [1, 0]
+            return run
+    return None
+
+
+def c_eqr(run):
+    e = _ev(run, "eqr")
+    for k, r in enumerate(e["res"]):
+        if r[1] > r[0]:
+            e["res"][k] = [r[0], r[1] - 1] if r[1] - r[0] >= 2 else [r[0] + 1, r[1] + 1]
+            return run
+    return None
+
+
+def c_eqr_absent(run):
+    """an absent extension answered with a non-empty range"""
+    e = _ev(run, "eqr")
+    for k, r in enumerate(e["res"]):
+        if r[1] <= r[0]:
+            e["res"][k] = [e["lo"], e["lo"] + 1]
+            return run
+    return None
+
+
+def c_dtext(run):
+    e = _ev(run, "built")
+    t = list(e["dtext"])
+    t[-1] = (t[-1] + 1) % 256
+    e["dtext"] = t
+    return run
+
+
 def c_proj(run):
     e = _ev(run, "sa_proj")
     e["violations"] = 1
@@ -350,6 +468,32 @@ def run(ctx):
     tests.append((dic[-1], lambda c: _rich(c, ("built", "search")), c_match_depth, "dictionary match depth reduced by one"))
     tests.append((dic[-1], lambda c: _rich(c, ("built", "search")) and c_match_range(json.loads(json.dumps(c))) is not None,
               c_match_range, "dictionary match range widened by one"))
+    dneed = ("built", "search", "longest", "eqr")
+    for sub in ("dict:adaptive", "dict:serde", "dict:file", "dict:optimized"):
+        fs = _files_of(files, sub, "exh abc")
+        if not fs:
+            raise vlib.ToolError("binding self-test: no trace file of " + sub)
+        tests.append((fs[-1], lambda c: _rich(c, dneed) and c_da(json.loads(json.dumps(c))) is not None, c_da,
+                      "da_match_max_length range widened by one (%s)" % sub))
+    dd = dic[-1]
+    tests.append((dd, lambda c: _rich(c, dneed), c_da_empty, "da_match_max_length of the empty input answered with a range"))
+    tests.append((dd, lambda c: _rich(c, dneed), c_mcount, "match_count changed by +1"))
+    tests.append((dd, lambda c: _rich(c, dneed) and c_ranked_order(json.loads(json.dumps(c))) is not None, c_ranked_order,
+                  "find_all_matches: two positions out of suffix order"))
+    tests.append((dd, lambda c: _rich(c, dneed) and c_longest_len(json.loads(json.dumps(c))) is not None, c_longest_len,
+                  "find_longest_match length reduced by one"))
+    tests.append((dd, lambda c: _rich(c, dneed) and c_longest_pos(json.loads(json.dumps(c))) is not None, c_longest_pos,
+                  "find_longest_match dict_position moved to a non-occurrence"))
+    tests.append((dd, lambda c: _rich(c, dneed), c_longest_none, "find_longest_match answered None although a match exists"))
+    tests.append((dd, lambda c: _rich(c, dneed), c_longest_past_end, "find_longest_match past the end of the input answered with a match"))
+    tests.append((dd, lambda c: _rich(c, dneed), c_eqr, "sa_equal_range range of a present extension changed"))
+    tests.append((dd, lambda c: _rich(c, dneed) and c_eqr_absent(json.loads(json.dumps(c))) is not None, c_eqr_absent,
+                  "sa_equal_range: absent extension answered with a non-empty range"))
+    tests.append((dd, lambda c: _rich(c, dneed), c_dtext, "dictionary_text differs from the text in one byte"))
+    m4 = _files_of(files, "dict:min4", "exh abc")
+    if m4:
+        tests.append((m4[-1], lambda c: _rich(c, dneed) and c_longest_short(json.loads(json.dumps(c))) is not None,
+                      c_longest_short, "min_pattern_length 4: a shorter longest match answered Some"))
     if big_ls:
         tests.append((big_ls[0], lambda c: _ev(c, "sa_proj") is not None, c_proj, "projected case: one adjacent order violation"))
     _selftests(ctx, tests)
@@ -370,23 +514,34 @@ def run(ctx):
             vacuous.append(name)
     cov["distinct_nontrivial"] = nontrivial
     cov["vacuous_subjects"] = vacuous
+    # strategy switch of Adaptive: every branch of select_algorithm must have been taken on judged texts
+    sel = {}
+    for name in ("sab:adaptive", "sab:adaptive_t16"):
+        for k, v in s.get("subjects", {}).get(name, {}).get("selected", {}).items():
+            sel[name + " " + k] = v
+    cov["adaptive_selected"] = sel
+    required = ["sab:adaptive_t16 dc3<thr", "sab:adaptive_t16 dc3>=thr", "sab:adaptive_t16 sais>=thr", "sab:adaptive_t16 ls>=thr",
+                "sab:adaptive dc3<thr", "sab:adaptive sais>=thr", "sab:adaptive ls>=thr", "sab:adaptive divsufsort>=thr"]
+    missing = [r for r in required if not sel.get(r)]
+    if missing:
+        raise vlib.ToolError("vacuity: Adaptive never selected " + ", ".join(missing))
     cov["exhaustive"] = True
     L = (8, 7, 6) if ctx.thorough else (7, 5, 5)
     cov["rule"] = ("a case = one (subject, text) pair: subject = construction algorithm / entry point (SuffixArrayBuilder x "
                    "{SAIS, DivSufSort, DC3, LarssonSadakane, Adaptive}, SA-IS without optimize_small_alphabet / through the parallel "
                    "path, SuffixArray::new + Algorithm::execute, EnhancedSuffixArray::with_lcp / with_bwt, compression::"
-                   "SuffixArrayCompressor x 4 presets, dict_zip::SuffixArrayDictionary x 2); texts are distinct by content.  "
+                   "SuffixArrayCompressor x 4 presets, dict_zip::SuffixArrayDictionary x 6: array by Adaptive / SA-IS, pattern window 4..8, deserialize(serialize), load_from_file(save_to_file), optimize_cache; Adaptive with adaptive_threshold = 16); texts are distinct by content.  "
                    "Counted when the text has >= 2 bytes and the subject returned an array (or dictionary) whose answers were "
                    "recorded and judged.  exhaustive refers to: EVERY string over 3 symbols (a,b,c) of length 0..%d for the five "
                    "builder algorithms, 0..%d for the other array entry points, 0..%d for the dictionary and for the symbol map "
-                   "(0x00,0x80,0xFF); families (a^n, (ab)^n, (abc)^n, Fibonacci words, runs, monotone, all 256 byte values, random "
+                   "(0x00,0x80,0xFF); families (a^n, (ab)^n, (abc)^n, Fibonacci and Thue-Morse words incl. lengths 15/16/17, runs, texts on both sides of every branch of select_algorithm (4|5 symbols, repetition ratio 0.69..0.71, entropy 1.6|2.2), texts ending in their smallest / largest symbol and in 0x00 / 0xFF, monotone, all 256 byte values, random "
                    "over alphabets of 1..256 symbols incl. 0x00/0x80/0xFF, length <= 300, random of 1200+) are samples; texts of "
-                   "10^4..%s bytes are judged through the projection (permutation flag, adjacent order violations = 0).  "
+                   "9 999 / 10 000 / 20 000 / 50 000 / 50 001 .. %s bytes (both sides of the size thresholds of Adaptive) are judged through the projection (permutation flag, adjacent order violations = 0).  "
                    "Every case carries the whole array, suffix_at_rank(0..=n), the LCP array, and the answers of every search API "
                    "for every pattern of its list (all strings of length <= 2 over the symbols / distinct substrings of length "
                    "<= %d, perturbed and over-long patterns, foreign bytes, the empty pattern).  evaluations = individual array "
                    "entries and pattern answers judged by TLC against the TLA+ definitions."
-                   % (L[0], L[1], L[2], "10^5" if ctx.thorough else "2*10^4", 4 if ctx.thorough else 3))
+                   % (L[0], L[1], L[2], "1 000 001" if ctx.thorough else "50 001", 4 if ctx.thorough else 3))
     run1 = _mini(_files_of(files, "sab:ls", "exh abc")[-1], lambda c: _rich(c, need, minlen=6))
     if run1:
         ctx.sample({"trace_file": os.path.relpath(base, vlib.VERIF), "case": run1})
@@ -405,6 +560,8 @@ def run(ctx):
         "the text is passed again by the caller to search()/find_pattern(); the harness always passes the text the array was built from",
         "LCP convention checked: n entries, lcp[0] = 0, lcp[r] = lcp(rank r-1, rank r); BWT convention: cyclic (sa[r] = 0 takes the last byte)",
         "the empty pattern: the whole range (0, n) or the documented refusal (0, 0) / no positions are both accepted",
+        "find_longest_match is called with max_length = usize::MAX (the parameter is ignored by the code; C12 does not speak about it); "
+        "dict_position may be any occurrence of the matched bytes",
         "the array inside SuffixArrayDictionary is not observable: its rank ranges are judged against the array-free formulation "
         "RangeOk (MC_SuffixArray checks it coincides with SearchOk on the suffix array)",
     ]
